@@ -118,6 +118,28 @@ class _Run:
         self.trace.append({"k": "written", "s": sid, "t": kind, "to": to})
         return True
 
+    def save_cmd(self, kinds, append=False):
+        """The explicit save as the user triggers it: the real `save.file` command of the Save addon.  Record ends are
+        then found in the written file with the reference framing (the command gives no per-flow position)."""
+        from mitmproxy.addons import save
+        from mitmproxy.test import taddons
+
+        flows = []
+        for kind in kinds:
+            f = fg.make_flow(kind, self.rng, rich=self.sc.get("rich", True), small=self.sc.get("small", True))
+            self.sid_by_flow_id[f.id] = self.intern(fg.safe_key(f))
+            self.kind_by_flow_id[f.id] = kind
+            flows.append(f)
+        sa = save.Save()
+        with taddons.context(sa):
+            try:
+                sa.save(flows, ("+" if append else "") + self.path)
+            except Exception as e:  # noqa: BLE001
+                self.trace.append({"k": "raised", "exc": type(e).__name__})
+                return False
+        self._observe_new_records()
+        return True
+
     def save_close(self):
         if self.fo is not None and not self.fo.closed:
             self.fo.close()
@@ -243,6 +265,7 @@ class Check(core.PropertyCheck):
                           "start", "done") + KINDS
     REQUIRED_ACTIONS = ("SaveAdd", "SaveClose", "Start", "Finish", "Done", "Crash", "Recover")
     PROCS = 4
+    LEVEL_NOTE = ("crash = truncation of the byte stream; the model enumerates framing parts per record, the harness sweeps every byte offset of sampled files; no fsync/torn-block claim")
     ASSUMPTIONS = (
         "a crash is a truncation of the byte stream the writer handed to the file object (no torn or reordered "
         "blocks, no garbage tail); the stream of an explicit save is what reaches the disk after flush/close",
@@ -265,10 +288,13 @@ class Check(core.PropertyCheck):
             return {"Kinds": frozenset(QUICK_KINDS), "Modes": frozenset({"save", "stream"}), "MaxFlows": 2,
                     "MaxCrash": 1, "OuterMapped": OUTER_MAPPED}
         if tier == "dumped":
-            return {"Kinds": frozenset(("httpresp", "tcp", "dnsresp")), "Modes": frozenset({"save", "stream"}),
-                    "MaxFlows": 3, "MaxCrash": 1, "OuterMapped": OUTER_MAPPED}
-        return {"Kinds": frozenset(KINDS), "Modes": frozenset({"save", "stream"}), "MaxFlows": 3, "MaxCrash": 2,
-                "OuterMapped": OUTER_MAPPED}
+            return {"Kinds": frozenset(("httpresp", "ws", "tcp", "udp", "dnsresp")), "Modes": frozenset({"save", "stream"}),
+                    "MaxFlows": 2, "MaxCrash": 1, "OuterMapped": OUTER_MAPPED}
+        if tier == "sim":
+            return {"Kinds": frozenset(KINDS), "Modes": frozenset({"save", "stream"}), "MaxFlows": 4, "MaxCrash": 2,
+                    "OuterMapped": OUTER_MAPPED}
+        return {"Kinds": frozenset(("httpresp", "ws", "tcp", "dnsresp")), "Modes": frozenset({"save", "stream"}),
+                "MaxFlows": 3, "MaxCrash": 1, "OuterMapped": OUTER_MAPPED}  # exhaustive, not dumped
 
     def model_runs(self, ctx):
         if ctx.quick:
@@ -309,7 +335,7 @@ class Check(core.PropertyCheck):
             yield core.Scenario({"seed": rng.randrange(1 << 30), "mode": mode, "ops": ops},
                                 predicted=core.predicted_events(b), source="model")
         if not ctx.quick:
-            behs2, _r = ctx.simulate(self.MODEL, self.model_constants("thorough"), num=3000, depth=14)
+            behs2, _r = ctx.simulate(self.MODEL, self.model_constants("sim"), num=3000, depth=16)
             for b in behs2:
                 mode, ops = self._ops(b)
                 if ops:
@@ -318,10 +344,12 @@ class Check(core.PropertyCheck):
         # every byte offset of files holding one flow of each kind, and of mixed files (beyond the model: the
         # model enumerates framing parts, the sweep enumerates bytes)
         if ctx.quick:  # lean single-flow files of every kind (explicit save) + one rich mixed stream file
-            plan = [([k], "save", False) for k in KINDS] + [(["ws", "tcperr", "dnsresp"], "stream", True)]
+            plan = [([k], "save", False) for k in KINDS] + [(["ws", "tcperr", "dnsresp"], "stream", True),
+                                                            (["httpresp", "udp"], "savecmd", False)]
         else:
-            plan = [([k], m, True) for k in KINDS for m in ("save", "stream")]
-            plan += [([rng.choice(KINDS) for _ in range(n)], m, True) for n in (2, 3, 3, 4, 6, 6) for m in ("save", "stream")]
+            plan = [([k], "save", True) for k in KINDS] + [([k], "stream", True) for k in ("httpresp", "ws", "tcperr", "udp")]
+            plan += [([rng.choice(KINDS) for _ in range(n)], m, True) for n in (2, 3, 6)
+                     for m in ("save", "stream", "savecmd")]
         for kinds, mode, rich in plan:
             seed = rng.randrange(1 << 30)
             K = (3 if not rich else 8) * len(kinds)
@@ -385,6 +413,9 @@ class Check(core.PropertyCheck):
                 if not run.save_add(k):
                     return
             run.save_close()
+        elif sc["mode"] == "savecmd":
+            if not run.save_cmd(kinds):
+                return
         else:
             for i, k in enumerate(kinds):
                 run.start(k)
